@@ -1,7 +1,11 @@
 (** C11 - exp, ln and powers are accurate to less than one unit in the last place. Statements only. *)
 From Coq Require Import ZArith Reals List.
 From Dashu Require Import Base.Prelude Float.RoundSpec Float.Contract Float.Model Float.ElemEncl Float.ElemEntry
-  Float.ElemEntryProof Float.ElemEnclProof Float.ElemDirected Float.ElemEntryDomain.
+  Float.ElemEntryProof Float.ElemEnclProof Float.ElemDirected Float.ElemEntryDomain
+  Float.AddModel Float.ElemF32 Float.ElemAsis Float.ElemAsisEntry Float.ElemParamsProof Float.ElemPowiProof
+  Float.ElemSubUlp Float.ElemSeriesFuel.
+From Coq Require Import QArith Qabs.
+From DashuGen Require Import ElemParams.
 Import ListNotations.
 Open Scope Z_scope.
 
@@ -193,3 +197,186 @@ Example C11_nonvacuous :
   check_exp 60 200 10 5 0 0 1 0 true = VAccept /\
   check_exp 60 200 10 5 3 0 2 1 true = VReject.
 Proof. exact accepted_examples. Qed.
+
+(** ==== deepening round 3: value-level as-is models of the powering / series code (Float/ElemAsis.v,
+    compared with the implementation bit for bit by the run) ==== *)
+
+(** ---- Context::powi, nearest modes: within one ulp of x^n, Exact only if exact *)
+Theorem C11_powi_invariant_means : forall B wp m s e j res,
+  Inv B wp m s e j res <->
+  (dlen B (approx_sig res) <= 2 * wp /\
+   (is_exact res = true -> aval B res = (fval B s e ^ Z.to_nat j)%R) /\
+   (is_half_mode m = true ->
+      RA (/ IZR (2 * B ^ (wp - 1))) (Z.to_nat (2 * j - 3)) (fval B s e ^ Z.to_nat j) (aval B res))).
+Proof. intros. apply iff_refl. Qed.
+Print Assumptions C11_powi_invariant_means.
+
+Theorem C11_powi_rel_error_means : forall u c t v,
+  RA u c t v <-> exists th : R, v = (t * th)%R /\ ((1 - u) ^ c <= th <= (1 + u) ^ c)%R.
+Proof. intros. apply iff_refl. Qed.
+Print Assumptions C11_powi_rel_error_means.
+
+Theorem C11_powi_loop_rel_error : forall B, 2 <= B -> forall wp, 1 <= wp -> forall m s e,
+  dlen B s <= 2 * wp -> forall n, 2 <= n ->
+  Inv B wp m s e n (powi_loop B wp m s e n (Z.to_nat (bit_len n - 2)) (c_sqr B wp m s e)).
+Proof. exact powi_loop_result. Qed.
+Print Assumptions C11_powi_loop_rel_error.
+
+Theorem C11_powi_nearest_under_guard_condition : forall B, 2 <= B -> forall p m s e n,
+  1 <= p -> 2 <= n -> s <> 0 -> is_half_mode m = true ->
+  let wp := powi_work_precision p n in
+  p < wp -> dlen B s <= 2 * wp -> (2 * n - 3) * (2 * B ^ p + 1) <= 2 * B ^ (wp - 1) ->
+  Accepted B p (powerRZ (fval B s e) n) (aval B (powi_pos B p m s e n)) (is_exact (powi_pos B p m s e n)).
+Proof. exact powi_pos_nearest. Qed.
+Print Assumptions C11_powi_nearest_under_guard_condition.
+
+Theorem C11_powi_guard_digits_suffice : forall B, 2 <= B -> forall p n, 1 <= p -> 2 <= n -> 3 <= B \/ 4 <= p ->
+  (2 * n - 3) * (2 * B ^ p + 1) <= 2 * B ^ (powi_work_precision p n - 1).
+Proof. exact powi_guard_condition. Qed.
+Print Assumptions C11_powi_guard_digits_suffice.
+
+Theorem C11_powi_asis_nearest_1ulp : forall B, 2 <= B -> forall p m s e n,
+  1 <= p -> 2 <= n -> s <> 0 -> is_half_mode m = true -> 3 <= B \/ 4 <= p ->
+  dlen B s <= 2 * powi_work_precision p n ->
+  exists a, powi_asis B p m s e n = Ok a /\
+    Accepted B p (powerRZ (fval B s e) n) (aval B a) (is_exact a).
+Proof. exact powi_asis_nearest. Qed.
+Print Assumptions C11_powi_asis_nearest_1ulp.
+
+Theorem C11_powi_exact_flag_every_mode : forall B, 2 <= B -> forall p m s e n, 1 <= p -> 0 <= n ->
+  dlen B s <= 2 * powi_work_precision p n ->
+  is_exact (powi_pos B p m s e n) = true -> aval B (powi_pos B p m s e n) = powerRZ (fval B s e) n.
+Proof. exact powi_pos_exact_flag. Qed.
+Print Assumptions C11_powi_exact_flag_every_mode.
+
+Theorem C11_powi_asis_negative_exponent_1ulp : forall B, 2 <= B -> forall p m s e n,
+  1 <= p -> n < 0 -> s <> 0 -> is_half_mode m = true -> 2 <= p \/ 5 <= B ->
+  dlen B s <= 2 * powi_work_precision (p + powi_neg_guard_bits_gen no_f32 p) (- n) ->
+  exists a, powi_asis B p m s e n = Ok a /\
+    Accepted B p (powerRZ (fval B s e) n) (aval B a) (is_exact a).
+Proof. exact powi_asis_neg_nearest. Qed.
+Print Assumptions C11_powi_asis_negative_exponent_1ulp.
+
+Theorem C11_powi_asis_nearest_every_exponent : forall B, 2 <= B -> forall p m s e n,
+  1 <= p -> s <> 0 -> is_half_mode m = true -> 4 <= p \/ 5 <= B -> dlen B s <= 2 * p ->
+  exists a, powi_asis B p m s e n = Ok a /\
+    Accepted B p (powerRZ (fval B s e) n) (aval B a) (is_exact a).
+Proof. exact powi_asis_nearest_every_exponent. Qed.
+Print Assumptions C11_powi_asis_nearest_every_exponent.
+
+Example C11_powi_asis_negative_nonvacuous :
+  exists a, powi_asis 10 2 MHalfAway 2001 (-3) (-7) = Ok a /\
+    Accepted 10 2 (powerRZ (fval 10 2001 (-3)) (-7)) (aval 10 a) (is_exact a).
+Proof. exact powi_asis_neg_example. Qed.
+Print Assumptions C11_powi_asis_negative_nonvacuous.
+
+Example C11_powi_asis_nearest_nonvacuous :
+  exists a, powi_asis 10 3 MHalfEven (-1234) (-3) 10 = Ok a /\
+    Accepted 10 3 (powerRZ (fval 10 (-1234) (-3)) 10) (aval 10 a) (is_exact a).
+Proof. exact powi_asis_nearest_example. Qed.
+Print Assumptions C11_powi_asis_nearest_nonvacuous.
+
+(** ---- the as-is models refine the entry logic; outside the shortcuts nothing is flagged Exact *)
+Theorem C11_exp_asis_refines_entry : forall B (F : Type) (O : f32ops F) W fuel p m s e mo,
+  match exp_entry p s mo with
+  | EPanic _ => exp_internal B O W fuel p m s e mo = Panic UnlimitedPrecision
+  | EExact s' e' => exp_internal B O W fuel p m s e mo = Ok (AExact s' e')
+  | ECompute => forall a, exp_internal B O W fuel p m s e mo = Ok a -> is_exact_a a = false
+  | ERound _ => False
+  end.
+Proof. exact @exp_internal_refines_entry. Qed.
+Print Assumptions C11_exp_asis_refines_entry.
+
+Theorem C11_ln_asis_refines_entry : forall B, 2 <= B -> forall (F : Type) (O : f32ops F) W fuel p m s e op,
+  match ln_entry B p s e op with
+  | EPanic EPUnlimited => ln_internal B O W fuel p m s e op = Panic UnlimitedPrecision
+  | EPanic _ => ln_internal B O W fuel p m s e op = Panic LogOperand
+  | EExact s' e' => ln_internal B O W fuel p m s e op = Ok (AExact s' e')
+  | ECompute => forall a, ln_internal B O W fuel p m s e op = Ok a -> is_exact_a a = false
+  | ERound _ => False
+  end.
+Proof. exact @ln_internal_refines_entry. Qed.
+Print Assumptions C11_ln_asis_refines_entry.
+
+Theorem C11_powi_asis_refines_entry : forall B p m s e n,
+  match powi_entry B p m s e n with
+  | EPanic _ => powi_asis B p m s e n = Panic UnlimitedPrecision
+  | EExact s' e' => n = 0 -> powi_asis B p m s e n = Ok (AExact s' e')
+  | ERound a => powi_asis B p m s e n = Ok (nrm B a)
+  | ECompute => True
+  end.
+Proof. exact powi_asis_refines_entry. Qed.
+Print Assumptions C11_powi_asis_refines_entry.
+
+Theorem C11_powf_asis_refines_entry : forall B, 2 <= B -> forall (F : Type) (O : f32ops F) W,
+  (forall x, 0 <= f_to_usize O x) -> forall fuel p m s e ys ye, 0 <= p ->
+  match powf_entry B p m s e ys ye with
+  | EPanic EPUnlimited => powf_asis B O W fuel p m s e ys ye = Panic UnlimitedPrecision
+  | EPanic _ => powf_asis B O W fuel p m s e ys ye = Panic PowerNegativeBase
+  | EExact s' e' => powf_asis B O W fuel p m s e ys ye = Ok (AExact s' e')
+  | ERound a => powf_asis B O W fuel p m s e ys ye = Ok (nrm B a)
+  | ECompute =>
+      forall a, powf_asis B O W fuel p m s e ys ye = Ok a -> is_exact_a a = true ->
+        s = 1 /\ e = 0 /\ a = AExact 1 0
+  end.
+Proof. exact @powf_asis_refines_entry. Qed.
+Print Assumptions C11_powf_asis_refines_entry.
+
+(** ---- the formulas regenerated from exp.rs / log.rs / round.rs (coq/gen/ElemParams.v) *)
+Theorem C11_params_reverse_mode : forall m,
+  reverse_mode_gen (reverse_mode_gen m) = m /\ is_half_mode (reverse_mode_gen m) = is_half_mode m /\
+  (is_half_mode m = true -> reverse_mode_gen m = m).
+Proof. intros m. exact (conj (reverse_mode_involutive m) (conj (reverse_mode_half_iff m) (reverse_mode_half m))). Qed.
+Print Assumptions C11_params_reverse_mode.
+
+Theorem C11_params_guard_digits : forall (F : Type) (O : f32ops F), (forall x, 0 <= f_to_usize O x) ->
+  forall p B n, 0 <= p ->
+  bit_len n + bit_len p <= powi_guard_digits_gen O n p /\
+  2 * bit_len p <= powi_neg_guard_bits_gen O p /\
+  2 <= exp_series_guard_digits_gen O p B /\ 0 <= exp_pow_guard_digits_gen O p B /\
+  1 <= exp_n_gen O p /\ p < exp_m1_pow_precision_gen O p /\ 10 <= powf_guard_digits_gen O p /\
+  p + 2 <= iacoth_work_precision_gen O p (iacoth_guard_digits_gen O p B) /\
+  2 <= ln_guard_digits_gen O p B.
+Proof. exact @params_guard_digits. Qed.
+Print Assumptions C11_params_guard_digits.
+
+Theorem C11_params_work_precisions : forall (F : Type) (O : f32ops F) p sgd pgd md g xd op,
+  2 <= sgd -> 0 <= pgd -> 0 <= md -> 2 <= g ->
+  p < exp_work_precision_neg_gen O p sgd /\ p < exp_work_precision_pos_gen O p sgd /\
+  p < exp_work_precision_scaled_gen O p sgd pgd md /\
+  p + 2 <= ln_work_precision_max_gen O (ln_work_precision_gen O p g op) xd g op /\
+  xd + g + 1 <= ln_work_precision_max_gen O (ln_work_precision_gen O p g op) xd g op.
+Proof. exact @params_work_precisions. Qed.
+Print Assumptions C11_params_work_precisions.
+
+(** ---- termination of the series loops: the stop criterion (FBig::sub_ulp, every f32 estimate layer)
+    and a fuel that depends on base and precision only, for loops whose operations round *)
+Theorem C11_sub_ulp_threshold : forall B, 2 <= B -> forall (F : Type) (O : f32ops F) W,
+  (forall x, 0 <= f_to_usize O x) -> forall x, 0 <= fprec x -> Z.abs (fsig x) <= B ^ (fprec x + 1) ->
+  (Rabs (fval B (fsig x) (fexp x)) * bpw B (- (2 * fprec x + 2)) <= bpw B (sub_ulp_exp B O W x))%R /\
+  (0 < bpw B (sub_ulp_exp B O W x))%R.
+Proof. exact @sub_ulp_threshold. Qed.
+Print Assumptions C11_sub_ulp_threshold.
+
+Theorem C11_series_fuel_partial : forall (B P : Z) eps rmul rdivz radd thr,
+  (2 <= B)%Z -> (0 <= P)%Z -> (0 <= eps /\ eps <= 1 # 16)%Q ->
+  (forall a b, Qabs (rmul a b) <= Qabs a * Qabs b * (1 + eps))%Q ->
+  (forall a d, (1 <= d)%Z -> Qabs (rdivz a d) * inject_Z d <= Qabs a * (1 + eps))%Q ->
+  (forall a b, Qabs (radd a b - (a + b)) <= eps * Qabs (a + b))%Q ->
+  (forall s, 1 / inject_Z (B ^ (2 * P + 2)) * Qabs s <= thr s)%Q ->
+  (inject_Z (Z.of_nat (series_steps B P)) * eps <= 1 # 4)%Q ->
+  forall fuel, (series_fuel B P <= fuel)%nat ->
+  (forall r, (Qabs r <= 1 # 2)%Q -> exp_loop_r rmul rdivz radd thr fuel false r <> None) /\
+  (forall r, (Qabs r <= 1 # 2)%Q -> ~ (r == 0)%Q -> exp_loop_r rmul rdivz radd thr fuel true r <> None) /\
+  (forall z z2, (Qabs z2 <= 1 # 4)%Q -> ~ (z == 0)%Q ->
+     atanh_loop_r rmul rdivz radd (ln_test thr) fuel z z2 <> None /\
+     atanh_loop_r rmul rdivz radd (iacoth_test thr) fuel z z2 <> None).
+Proof. exact series_fuel_partial. Qed.
+Print Assumptions C11_series_fuel_partial.
+
+Example C11_series_fuel_nonvacuous :
+  (series_fuel 10 100 = 674 /\ series_fuel 2 53 = 111 /\ series_fuel 36 20 = 220)%nat /\
+  exp_loop_r Qmult (fun a d => a / inject_Z d)%Q Qplus (fun s => (1 # 10 ^ 6) * Qabs s + (1 # 10 ^ 6))%Q
+    (series_fuel 10 2) false (1 # 3) <> None.
+Proof. exact (conj series_fuel_values series_fuel_partial_nonvacuous). Qed.
+Print Assumptions C11_series_fuel_nonvacuous.
